@@ -283,7 +283,8 @@ func (c *Ctx) Finish(runErr error) int {
 	for _, w := range wits {
 		fmt.Printf("KNOWN-FINDING: property=%s %s (cases=%d)\n", c.Prop, w, c.known[w])
 	}
-	replayDir := filepath.Join(c.Verif, "evidence", "replay")
+	evDir := getenv("VERIF_EVIDENCE_DIR", filepath.Join(c.Verif, "evidence"))
+	replayDir := filepath.Join(evDir, "replay")
 	for i := range c.violations {
 		v := &c.violations[i]
 		os.MkdirAll(replayDir, 0755)
@@ -326,9 +327,9 @@ func (c *Ctx) Finish(runErr error) int {
 			code = ExitInfra
 		}
 	}
-	os.MkdirAll(filepath.Join(c.Verif, "evidence"), 0755)
+	os.MkdirAll(evDir, 0755)
 	data, _ := json.MarshalIndent(c.Ev, "", " ")
-	if err := os.WriteFile(filepath.Join(c.Verif, "evidence", c.Prop+".json"), append(data, '\n'), 0644); err != nil {
+	if err := os.WriteFile(filepath.Join(evDir, c.Prop+".json"), append(data, '\n'), 0644); err != nil {
 		fmt.Printf("INFRA-ERROR cannot write evidence: %v\n", err)
 		if code == ExitOK {
 			code = ExitInfra
